@@ -42,9 +42,11 @@ THEOREM_CLASSES = {
     "C10_leaf_flag_sound": "main", "C10_reachable_kept": "main", "C10_no_abort": "main",
     "C10_repaired_code_facts": "tripwire", "C10_every_op_safe": "main",
     "C10_stacktop_discipline": "main", "C10_main_stack_kept": "corollary", "C10_coroutine_stack_kept": "corollary",
-    "C10_stacktop_reset_needed": "refutation",
+    "C10_stacktop_reset_needed": "refutation", "C10_leaf_rule_needed": "refutation",
+    "C10_finalize_bit_needed": "refutation", "C10_destroy_sweep_needed": "refutation",
 }
 UNPROVED = [
+    "repair-flag companions: C10_leaf_rule_needed and C10_finalize_bit_needed are stated on policy-parametric copies of the DECISIONS (reg_flags_gen, register_branch_gen, linked to the model by reg_flags_is_gen / register_branch_is_gen), not on a policy-parametric copy of the whole collector; SCAN_SIZE_TEST and RESIZE_BEFORE_STEP have no companion (no theorem is false without them inside this model: over-reads and stale table pointers are outside it); C10_destroy_sweep_needed shows only that at least one sweep is needed - that one is not enough needs finalizers that allocate, which are outside the model",
     "C10_stacktop_discipline is mostly definitional (the one real path is the refused resume from main, which rests on the scraped placement of gc:setstacktop(0): companion C10_stacktop_reset_needed); C10_main_stack_kept and C10_coroutine_stack_kept are corollaries of C10_every_op_safe whose stack/register words and 'the coroutine's frames are words of its registered item' are premises supplied by the history; CORO_REGISTERED_WITH_CORO_SIZE is a tripwire no theorem depends on",
     "stack clause: the collector-side logic is modelled (coq/C10/CoStack.v: gc.stacktop bracket of coroutine.resume incl. refused resumes, main stack frames, coroutine stacks as registered items) and proved (C10_stacktop_discipline, C10_main_stack_kept, C10_coroutine_stack_kept); NOT modelled: that the words of the real machine stack / registers (setjmp, frame address) and of the coroutine's mmap'd block are exactly what the history supplies, and the context switch itself; the CoStack layer is not run against the implementation command by command - its tie is the scraped order of gc:setstacktop(0) vs the error return, and the coroutine stream (harness/C10/gccodriver.nelua: blocks held only in coroutine frames / in deep main frames, refused resumes from main followed by cycles), which is testing",
     "that the pointer being (re)registered sits in a scanned slot while GC:register/GC:reregister may run a cycle: assumed by the model (ptr :: stk), restated as C10_alloc_fresh_survives_if_scanned, observed on the real collector by every history in the 'auto*' modes",
